@@ -60,6 +60,57 @@ def handle : P String := do
     | "vox" => pure (showInts (mkVoxel xs))
     | "ctr" => pure (showRats (mkCenter xs))
     | _ => failure
+  | "hist" => do
+    -- hist <cs> <k> (touch | reset | origin <list rat> | dims <list rat>)*  ->  final dims | origin | coordinate(0) | opposite
+    let cs ← pCS; let k ← P.nat
+    let ops ← P.rep (do
+      let t ← P.tok
+      match t with
+      | "touch" => pure GeomOp.touch
+      | "reset" => pure GeomOp.resetOrigin
+      | "origin" => do let o ← P.list P.rat; pure (GeomOp.setOrigin o)
+      | "dims" => do let o ← P.list P.rat; pure (GeomOp.setDimensions o)
+      | _ => failure) k
+    P.done
+    pure (showExcept (fun x => x) (do
+      let c ← cs.applyOps ops
+      let z ← c.coordinate (List.replicate c.dim.toNat 0)
+      let o ← c.opposite
+      pure (showRats c.dims ++ " | " ++ showRats c.origin ++ " | " ++ showRats z ++ " | " ++ showRats o)))
+  | "cvec" => do
+    let cs ← pCS; let w ← P.list P.rat; P.done
+    pure (showExcept showRats (cs.coordinateVector w))
+  | "length" => do
+    let cs ← pCS; let num ← P.rat; let i ← P.nat; P.done
+    pure (showExcept showRat (cs.length num i))
+  | "numvoxax" => do
+    let cs ← pCS; let len ← P.rat; let i ← P.nat; P.done
+    pure (showExcept toString (cs.numVoxelsAx len i))
+  | "mincoord" => do let cs ← pCS; P.done; pure (showExcept showRats cs.minCoordinate)
+  | "maxcoord" => do let cs ← pCS; P.done; pure (showExcept showRats cs.maxCoordinate)
+  | "imgdomain" => do let cs ← pCS; P.done; pure (showExcept showRats cs.imageDomain)
+  | "voxels" => do let cs ← pCS; P.done; pure (showPts showNats cs.voxels)
+  | "coords" => do let cs ← pCS; P.done; pure (showExcept (showPts showRats) cs.coordinates)
+  | "mkrev" => do
+    let k ← P.tok; let xs ← P.list P.rat; P.done
+    match k with
+    | "vox" => pure (showInts (mkVoxelRev xs))
+    | "ctr" => pure (showRats (mkCenterRev xs))
+    | _ => failure
+  | "mkb" => do
+    let k ← P.tok; let mi ← P.bool; let pts ← P.list (P.list P.rat); P.done
+    match k with
+    | "vox" => pure (showExcept (showPts showInts) (mkVoxelB pts mi))
+    | "ctr" => pure (showExcept (showPts showRats) (mkCenterB pts mi))
+    | "coord" => pure (showExcept (showPts showRats) (mkCoordinateB pts))
+    | _ => failure
+  | "cseq" => do
+    let c1 ← pCS; let c2 ← pCS; let ex ← P.bool; P.done
+    let name : CsField → String
+      | .indexing => "indexing" | .spaceDim => "space_dim" | .shape => "shape" | .dimensions => "dimensions"
+      | .axes => "axes" | .voxelSize => "voxel_size" | .originVoxel => "coordinate_of_origin_voxel"
+      | .oppositeVoxel => "coordinate_of_opposite_voxel"
+    pure (showExcept (fun r => showBool r.1 ++ " | " ++ " ".intercalate (r.2.map name)) (checkEqual c1 c2 ex))
   | _ => failure
 
 def dispatch (toks : List String) : Option String := (handle.run toks).map Prod.fst
